@@ -205,3 +205,26 @@ package cgroup
 //@   requires c != nil
 //@   assigns X.n, X.dir, X.file, X.val
 //@   ensures result == nil ==> X.n == old(X.n) + 1 && c.pids != nil && X.dir == c.pids.path && X.file == "pids.max" && X.val == i
+
+// adding pids: exactly the given pids are written to this group's own cgroup.procs
+//@ func pkg/cgroup.(*V2).AddProc props C20
+//@   arith int
+//@   requires c != nil
+//@   assigns FC.closed
+//@   callsite AddProcesses: assert @C20 path == joined(c.path, "cgroup.procs") && procs == pids
+//@ func pkg/cgroup.(*v1controller).AddProc props C20
+//@   arith int
+//@   requires c != nil
+//@   assigns FC.closed
+//@   callsite AddProcesses: assert @C20 path == joined(c.path, "cgroup.procs") && procs == pids
+//@ func pkg/cgroup.(*V2).Processes props C20
+//@   arith int
+//@   requires c != nil
+//@   assigns nothing
+//@   callsite ReadProcesses: assert @C20 path == joined(c.path, "cgroup.procs")
+//@ func pkg/cgroup.ReadProcesses props C20
+//@   arith int
+//@   assigns nothing
+//@   ensures result.1 == nil ==> len(result.0) >= 0
+//@   loop 0: invariant -1 <= rangeindex && rangeindex < len(procs) && len(rt) <= rangeindex + 1 && cap(rt) == len(procs) && (fresh(rt) || cap(rt) == 0)
+//@   loop 0: invariant forall k int :: 0 <= k && k < len(rt) ==> exists j int :: 0 <= j && j <= rangeindex && rt[k] == atoi(procs[j])
